@@ -222,11 +222,14 @@ class MultiFit(FitBase):
                     # Bind fit object (Python is call-by-value), otherwise all derivatives would
                     # use the same fit.
                     def _get_derivatives_func(fit):
-                        return lambda: (
-                            fit._param_model.eval_model_function_derivative_by_x(model_parameters=fit.parameter_values, dx=0.01 * self._min_x_error)
-                            if self._min_x_error is not None
-                            else np.zeros(fit.data_size)
-                        )
+                        def _derivatives():
+                            # the smallest non-zero x error follows the current x_cov_mat (member fits can change it too)
+                            _min_x_error = self._get_min_x_error()
+                            if _min_x_error is None:
+                                return np.zeros(fit.data_size)
+                            return fit._param_model.eval_model_function_derivative_by_x(model_parameters=fit.parameter_values, dx=0.01 * _min_x_error)
+
+                        return _derivatives
 
                     self._nexus.add(
                         Function(func=_get_derivatives_func(_fit_i), name=_derivatives_name),
@@ -295,6 +298,10 @@ class MultiFit(FitBase):
             par_names=_x_cov_mat_names,
             add_children=False,
         )
+        for _i, _fit_i in enumerate(self._fits):
+            if _fit_i._cost_function.is_chi2 and isinstance(_fit_i, XYFit):
+                # the derivatives are zero while there is no x error and use a step derived from the x errors
+                self._nexus.add_dependency(name="derivatives%s" % _i, depends_on="x_cov_mat")
         self._nexus.add_function(
             func=_combine_1d_property,
             func_name="derivatives",
@@ -324,17 +331,11 @@ class MultiFit(FitBase):
         )
 
         def total_cov_mat_cholesky(x_cov_mat, derivatives, y_cov_mat):
-            if self._min_x_error is not None:
-                _cov_mat = y_cov_mat + x_cov_mat * np.outer(derivatives, derivatives)
-            else:
-                _cov_mat = y_cov_mat
+            _cov_mat = y_cov_mat + x_cov_mat * np.outer(derivatives, derivatives)
             return cholesky_decomposition(_cov_mat)
 
         def total_cov_mat_qr(x_cov_mat, derivatives, y_cov_mat):
-            if self._min_x_error is not None:
-                _cov_mat = y_cov_mat + x_cov_mat * np.outer(derivatives, derivatives)
-            else:
-                _cov_mat = y_cov_mat
+            _cov_mat = y_cov_mat + x_cov_mat * np.outer(derivatives, derivatives)
             return qr_decomposition(_cov_mat)
 
         self._nexus.add_function(total_cov_mat_cholesky)
@@ -496,9 +497,12 @@ class MultiFit(FitBase):
         for _fit in self._fits:
             _fit._on_error_change()
 
+        self._min_x_error = self._get_min_x_error()
+
+    def _get_min_x_error(self):
         _x_errors = np.sqrt(np.diag(self._nexus.get("x_cov_mat").value))
         _non_zero_x_errors = _x_errors[_x_errors > 0.0]
-        self._min_x_error = None if len(_non_zero_x_errors) == 0 else np.min(_non_zero_x_errors)
+        return None if len(_non_zero_x_errors) == 0 else np.min(_non_zero_x_errors)
 
     def _set_new_data(self, new_data):
         raise NotImplementedError()
